@@ -37,7 +37,7 @@ CHECKS = {
         note='Oracle validated against the literal slice expectations of transform_test.py. Two known findings recorded.'),
     'C07': dict(
         category='exploration', design_ref='DESIGN.md §4 C07',
-        technique='runtime differential monitor: every metric family is evaluated through function API, AggregateFn call and accumulator paths on generated inputs and compared with independent brute-force Fraction oracles (validated against 358 literal expectations of the repository tests); alias and range monitors; input classes include 1e5-4e5 examples, probabilities equal to thresholds, large-offset / int32 data, all-negative data, empty rows, unsorted / repeated k lists and exact 0 / 1 probabilities; rankings with repeated ids (range law first, set-based value as a separately keyed second oracle)',
+        technique='runtime differential monitor: every metric family is evaluated through function API, AggregateFn call and accumulator paths on generated inputs and compared with independent brute-force Fraction oracles (validated against 358 literal expectations of the repository tests); alias and range monitors; input classes include 1e5-4e5 examples, probabilities equal to thresholds, large-offset / int32 data, all-negative data, empty rows, unsorted / repeated k lists and exact 0 / 1 probabilities; rankings with repeated ids (range law first, set-based value as a separately keyed second oracle); SymmetricPredictionDifference and math_utils operands rescaled exactly by powers of two (2**-60 .. 2**40)',
         text='About 7.8k (input, configuration) cases and 330k value checks per quick run, 500k cases thorough, against textbook definitions computed from the raw examples.',
         note='Domain restrictions listed in the evidence assumptions (zero-denominator convention, dyadic grids for histograms, retrieval rows non-empty). Three known findings recorded.'),
     'C17': dict(
@@ -82,7 +82,7 @@ CHECKS = {
         note='Threaded runs compared as multisets. Two known findings recorded.'),
     'C16': dict(
         category='exploration', design_ref='DESIGN.md §3.4, §4 C16', engine='E4-simulated-courier',
-        technique='runtime differential monitor over the simulated transport on real threads: generated pipelines run through sharded_pipelines_as_iterator and run_pipeline_interleaved on real WorkerPool/PrefetchedCourierServer objects and are compared (batch multiset, exactly one final aggregate, exact integer aggregators) with the in-process run and an independent plain-Python reference; merge_states with every wrong strict_states_cnt must raise; round-robin sources and worker-side threads in the generated pipelines; failing shards (application error, give-up after deadline) with inspection of what result_queue delivered after every raising run, concurrent pools with differing settings over shared servers',
+        technique='runtime differential monitor over the simulated transport on real threads: generated pipelines run through sharded_pipelines_as_iterator and run_pipeline_interleaved on real WorkerPool/PrefetchedCourierServer objects and are compared (batch multiset, exactly one final aggregate, exact integer aggregators) with the in-process run and an independent plain-Python reference; merge_states with every wrong strict_states_cnt must raise; round-robin sources and worker-side threads in the generated pipelines; failing shards (application error, give-up after deadline) with inspection of what result_queue delivered after every raising run, concurrent pools with differing settings over shared servers; sharded runs with client max_parallelism 1-4',
         text='640 distributed runs per quick run (8k transport calls), 16k thorough; the thorough tier also runs the 186 upstream courier tests against the stand-in as a fidelity suite.',
         note='Fault-free; a case that misses a 120 s watchdog twice is reported as a hang.'),
     'C06': dict(
@@ -102,7 +102,7 @@ CHECKS = {
         note='Element-wise operators, pre-batched records, no re-batching, no sinks.'),
     'C10': dict(
         category='exploration', design_ref='DESIGN.md §4 C10',
-        technique='runtime metamorphic monitor with enumerated crash points: data sources (plain, sharded, nested-sharded, merged, round-robin iterables) and pipelines over them (exact aggregators, sliced aggregates, chained aggregating stages, ignore_error sources, num_threads 0-3) are interrupted at every cut position for up to three successive checkpoints, restored through both APIs and every receiver, with the state passed as is / deep-copied / pickled; delivered-before + delivered-after and the final aggregate must equal the uninterrupted run; re-batching pipelines are checkpointed at every output batch; law from_state(s).state == s at every restore, chains of 100-1100 successive restores (bare sources, sharded, inside pipelines; states passed as is, deep-copied or pickled)',
+        technique='runtime metamorphic monitor with enumerated crash points: data sources (plain, sharded, nested-sharded, merged, round-robin iterables) and pipelines over them (exact aggregators, sliced aggregates, chained aggregating stages, ignore_error sources, num_threads 0-3) are interrupted at every cut position for up to three successive checkpoints, restored through both APIs and every receiver, with the state passed as is / deep-copied / pickled; delivered-before + delivered-after and the final aggregate must equal the uninterrupted run; re-batching pipelines are checkpointed at every output batch; law from_state(s).state == s at every restore, chains of 100-1100 successive restores (bare sources, sharded, inside pipelines; states passed as is, deep-copied or pickled); shard paths with a level resumed at an offset before further sharding',
         text='283k cases per quick run (exhaustive for n<=10, all cut lists of 1-3 checkpoints), 3.1M thorough.',
         note='Threaded cases compare multisets under a watchdog. Three known findings recorded.'),
 }
